@@ -12,6 +12,7 @@ RULE = ("bounded-exhaustive enumeration: u in {k^n-1, k^n, k^n+1} for k in {EXH(
         "under the pinned thresholds and the run-time-threshold floor vector (ROOTREM_THRESHOLD 1). Oracle: math.isqrt, integer Newton n-th "
         "root (self-tested), exhaustive prime-exponent search for perfect powers. distinct_nontrivial = distinct (function, n, size of u, "
         "k^n+d class, sign, exactness) tuples.")
+RULE = RULE + (" " + 'Later additions: root indices up to 2^64-1; radicands exactly B^j; every trial-division prime as a power base; s^2 +- 2^j for every bit position with mpn_sqrtrem called with and without a remainder pointer.')
 ASSUMPTIONS = ["math.isqrt and the integer Newton root (checked by r^n <= u < (r+1)^n in setup) are the reference model",
                "even roots of negative numbers and n = 0 are outside the assertable domain (documented trap)"]
 BUDGET = {"quick": 420, "thorough": 3300}
